@@ -277,7 +277,7 @@ func ser(nano int64, id string) string {
 type curArg *string
 
 func curOf(nano int64, id string) curArg { s := ser(nano, id); return &s }
-func curRaw(s string) curArg            { return &s }
+func curRaw(s string) curArg             { return &s }
 
 func edgeNode(nano int64, id string) sexp.Node { return sexp.L(z64(nano), sexp.Str(id)) }
 
@@ -579,8 +579,8 @@ func shuffled(r *rng.R, d []edge) []edge {
 }
 
 // grid of DateTime bounds around the timestamps 100/200/300 (nil = absent)
-var fromGrid = []*time.Time{nil, ns(100), ns(200), ns(250), ns(400)}
-var toGrid = []*time.Time{nil, ns(100), ns(200), ns(300), ns(301)}
+var fromGrid = []*time.Time{nil, ns(100), ns(200), ns(250), ns(300)}
+var toGrid = []*time.Time{nil, ns(150), ns(200), ns(300), ns(301)}
 
 // cursors: of existing edges, of non-existent edges between / outside, sharing a timestamp or not
 func cursorGrid() []curArg {
@@ -590,8 +590,8 @@ func cursorGrid() []curArg {
 
 type fl struct{ first, last *int }
 
-var flGrid = []fl{{intp(0), nil}, {intp(1), nil}, {intp(2), nil}, {intp(10), nil},
-	{nil, intp(0)}, {nil, intp(1)}, {nil, intp(2)}, {nil, intp(10)}}
+var flGrid = []fl{{intp(0), nil}, {intp(1), nil}, {intp(2), nil}, {intp(4), nil}, {intp(10), nil},
+	{nil, intp(0)}, {nil, intp(1)}, {nil, intp(2)}, {nil, intp(4)}, {nil, intp(10)}}
 
 func randomPres(r *rng.R) []presT {
 	switch r.Intn(6) {
@@ -663,7 +663,12 @@ func addSat(t int64, d int64) int64 {
 
 func randomCursor(r *rng.R, d []edge) curArg {
 	switch r.Intn(10) {
-	case 0, 1, 2:
+	case 0, 1:
+		return nil
+	case 2:
+		if r.Chance(1, 4) {
+			return curRaw("") // the empty string counts as absent
+		}
 		return nil
 	case 3, 4, 5: // an existing edge
 		if len(d) > 0 {
@@ -692,6 +697,9 @@ func randomBound(r *rng.R, d []edge) *time.Time {
 	case 3, 4, 5:
 		t := time.Unix(0, rng.Pick(r, datasetTimes(d))).UTC()
 		t = t.Add(time.Duration(r.Range(-1, 1)))
+		if r.Chance(1, 4) { // the same instant written with a zone offset
+			t = t.In(time.FixedZone("", r.Range(-12, 14)*3600))
+		}
 		return &t
 	case 6:
 		t := time.Unix(0, rng.Pick(r, datasetTimes(d))).UTC()
@@ -748,11 +756,10 @@ func main() {
 		thorough := h.Thorough()
 
 		// A. exhaustive argument grid on fixed data sets, synchronous exact getter
-		gridSets := [][]edge{d0}
+		gridSets := [][]edge{d0, {{100, "b"}, {200, "a"}, {200, "b"}, {200, "c"}, {300, "a"}, {300, "c"}}}
 		if thorough {
 			gridSets = append(gridSets,
-				[]edge{{100, "a"}, {200, "a"}, {200, "b"}, {200, "c"}, {300, "a"}, {300, "c"}},
-				[]edge{{100, "b"}, {200, "a"}, {300, "a"}, {300, "b"}},
+				[]edge{{100, "a"}, {200, "ab"}, {300, "a"}, {300, "b"}},
 				[]edge{{200, "a"}, {200, "b"}, {200, "c"}},
 				[]edge{{100, "c"}},
 				[]edge{})
@@ -781,6 +788,27 @@ func main() {
 									})
 								}
 							}
+						}
+					}
+				}
+			}
+		}
+
+		// A'. the int64 boundaries: cursors and edges at the smallest / largest nanosecond
+		{
+			mx, mn := int64(math.MaxInt64), int64(math.MinInt64)
+			sets := [][]edge{{{mx, "a"}, {mx, "b"}, {mx, "c"}, {mx - 1, "a"}}, {{mn, "a"}, {mn, "b"}, {mn, "c"}, {mn + 1, "a"}}}
+			curs := []curArg{nil, curOf(mx, "a"), curOf(mx, "b"), curOf(mx-1, "a"), curOf(mn, "b"), curOf(mn, "c"), curOf(mn+1, "a")}
+			for _, d := range sets {
+				for _, after := range curs {
+					for _, before := range curs {
+						for _, x := range []fl{{intp(1), nil}, {intp(10), nil}, {nil, intp(1)}, {nil, intp(10)}} {
+							a := argSpec{First: x.first, Last: x.last, After: after, Before: before, Info: true}
+							d := d
+							h.Case(func(r *rng.R) sexp.Node {
+								e := &env{run: run, edges: shuffled(r, d), getter: r.Intn(3), typedNil: r.Bool()}
+								return e.single(a, randomPres(r))
+							})
 						}
 					}
 				}
